@@ -763,6 +763,41 @@ def lemire_refined(F, rng, per_q, tries, nds=(15, 16, 16, 17)):
     return out
 
 
+def g_refined_next(F, rng, tier):
+    """G34: TRUNCATED inputs whose probe w + 1 is a refinement-carry event of Eisel-Lemire's product (see lemire_refined):
+    after the carry the high word of w + 1 sits exactly ON a multiple of 2^9, so the high word of w is one step (8..16
+    units, depending on the leading zeros of w and the top bits of the power) below a rounding boundary while the dropped
+    digits decide on which side the value lies.  19-digit w' over the whole range and, separately, in [10^18, 2^60) (four
+    leading zeros: the largest step); tails .99.., .5, and w' itself with a far-out digit."""
+    out = []
+    precision = F.mbits + 3
+    mask = U64 >> precision
+    if mask.bit_length() > 14:
+        return out
+    q_ = tier == "quick"
+    for q in range(max(F.p10_lo - 2, -342), min(F.p10_hi + 2, 308) + 1):
+        T = p5_128(q)
+        hi5, lo5 = T >> 64, T & U64
+        if lo5 == 0:
+            continue
+        for (lo, hi, want) in ((10 ** 18, 1 << 60, 1 if q_ else 3), (10 ** 18, 10 ** 19, 1 if q_ else 2)):
+            got = 0
+            for _ in range(3000 if q_ else 12000):
+                w = rng.randrange(lo, hi)
+                z = w << (64 - w.bit_length())
+                first = z * hi5
+                if (first >> 64) & mask != mask or (first & U64) + ((z * lo5) >> 64) <= U64:
+                    continue
+                got += 1
+                out.append(mk(F.name, str(w - 1), "99", q, "G34:next-refined-99"))
+                out.append(mk(F.name, str(w - 1), "9" * 14, q, "G34:next-refined-99"))
+                out.append(mk(F.name, str(w - 1), "5", q, "G34:next-refined-5"))
+                out.append(mk(F.name, str(w), "0" * 6 + "1", q, "G34:refined-far1"))
+                if got >= want:
+                    break
+    return out
+
+
 def g_lemire_refined(F, rng, tier):
     """G30: the (w, q) above as parse inputs"""
     q = tier == "quick"
